@@ -103,7 +103,9 @@ func (g *Gen) instr(f *Frame, ci *cfgInfo, b *ssa.BasicBlock, ins ssa.Instructio
 		g.instrDefer(f, i)
 	case *ssa.RunDefers:
 		g.instrRunDefers(f, i)
-	case *ssa.Go, *ssa.Send, *ssa.Select:
+	case *ssa.Send:
+		g.instrSend(f, i)
+	case *ssa.Go, *ssa.Select:
 		unsupp("concurrency instruction %T", ins)
 	case *ssa.If:
 		c := g.val(f, i.Cond).S
@@ -717,4 +719,27 @@ func (g *Gen) instrNext(f *Frame, i *ssa.Next) {
 	f.tuples[i] = []Term{{okn, "Bool", types.Typ[types.Bool]}, {kn, ks, mt.Key()}, {vn, vs, mt.Elem()}}
 	g.typeFacts(and(f.en, okn), f.tuples[i][1], g.now(f.st), true)
 	g.typeFacts(and(f.en, okn), f.tuples[i][2], g.now(f.st), true)
+}
+
+// chanComps: ghost history of a channel: number of values sent and the last value sent.
+func (g *Gen) chanComps(ct *types.Chan) (cnt, last string) {
+	es := g.d.sortOf(ct.Elem())
+	cnt, last = "CHN", "CHL$"+sanitize(es)
+	g.compDecl(cnt, "(Array Int Int)")
+	g.compDecl(last, "(Array Int "+es+")")
+	return
+}
+
+// instrSend: a send on an unbuffered channel completes when a receiver takes the value; the ghost history records it.
+// (Blocking forever is not modelled: liveness of the receiver is outside this family of technique.)
+func (g *Gen) instrSend(f *Frame, i *ssa.Send) {
+	ch := g.val(f, i.Chan)
+	x := g.val(f, i.X)
+	ct := types.Unalias(i.Chan.Type()).Underlying().(*types.Chan)
+	cnt, last := g.chanComps(ct)
+	g.safety(f, fmt.Sprintf("(not (= %s 0))", ch.S), "nil-chan-send", i.Pos())
+	g.frameWrite(cnt, ch.S)
+	g.set(f.st, cnt, fmt.Sprintf("(store %[1]s %[2]s (+ (select %[1]s %[2]s) 1))", g.get(f.st, cnt), ch.S))
+	g.frameWrite(last, ch.S)
+	g.set(f.st, last, fmt.Sprintf("(store %s %s %s)", g.get(f.st, last), ch.S, x.S))
 }
